@@ -247,6 +247,37 @@ def _implied(fa: FA, t, n, positive, excuse) -> bool:
     return bool(excuse(txt, pol))
 
 
+def _through_properties(ck, cls, excuse):
+    """`excuse` extended to literals that name a call-free single-return property of the class (`self._writable` returning
+    `not self.read_only`, `self._cached` returning `self._memory_cache is not None`): the literal is excused when what the
+    property returns, taken with the literal's polarity, implies an excused literal"""
+    def leaf(e, positive):
+        if isinstance(e, ast.UnaryOp) and isinstance(e.op, ast.Not):
+            return leaf(e.operand, not positive)
+        if isinstance(e, ast.BoolOp):
+            conj = (isinstance(e.op, ast.And) and positive) or (isinstance(e.op, ast.Or) and not positive)
+            parts = [leaf(v, positive) for v in e.values]
+            return any(parts) if conj else all(parts)
+        if isinstance(e, ast.Compare) and len(e.ops) == 1 and isinstance(e.ops[0], (ast.IsNot, ast.NotEq, ast.NotIn)):
+            pos = {ast.IsNot: ast.Is, ast.NotEq: ast.Eq, ast.NotIn: ast.In}[type(e.ops[0])]
+            return leaf(ast.Compare(left=e.left, ops=[pos()], comparators=e.comparators), not positive)
+        if isinstance(e, ast.Call) and isinstance(e.func, ast.Name) and e.func.id == "bool" and len(e.args) == 1 and not e.keywords:
+            return leaf(e.args[0], positive)
+        return bool(excuse(A.norm(e), positive))
+
+    def wrapped(t, p):
+        if excuse(t, p):
+            return True
+        if cls is None or not re.fullmatch(r"self\.\w+", t):
+            return False
+        e = ast.parse(t, mode="eval").body
+        x = _inline_properties(ck, cls, e)
+        if A.norm(x) == t or any(isinstance(n, ast.Call) and not (isinstance(n.func, ast.Name) and n.func.id == "bool") for n in ast.walk(x)):
+            return False
+        return leaf(x, p)
+    return wrapped
+
+
 def _inline_properties(ck, cls, e, depth=0):
     """`self.<p>` with p a single-return property of the class (or a base) replaced by what the property returns"""
     import copy
@@ -416,10 +447,11 @@ def _check_cache_let_go_first(ck, R, fa0: FA, name):
     CFG with exception edges out of every call."""
     fx = FA(ck, fa0.fi, exc_mode="all")
     mdx, _m = _layer_application_nodes(ck, fx, name, "_metadata_source", None)
-    ccx, _c = _layer_application_nodes(ck, fx, name, "_memory_cache", _no_cache)
+    no_cache = _through_properties(ck, fx.fi.cls, _no_cache)
+    ccx, _c = _layer_application_nodes(ck, fx, name, "_memory_cache", no_cache)
     if not mdx or not ccx:
         return      # reported by the mirror obligations
-    nocache = branch_filter(fx, _no_cache)
+    nocache = branch_filter(fx, no_cache)
     cfg = fx.cfg
     bad = None
     for m in mdx:
@@ -429,7 +461,7 @@ def _check_cache_let_go_first(ck, R, fa0: FA, name):
             lp = nd if isinstance(nd, ast.For) else fx.enclosing(nd, ast.For) if nd is not None else None
             seq = safe_expand(fx, lp.iter, lp) if lp is not None else None
             if isinstance(seq, (ast.Tuple, ast.List)) and not any(isinstance(e, ast.Starred) for e in seq.elts):
-                ic = [i for i, e in enumerate(seq.elts) if _layer_value(ck, fx, e, lp, "_memory_cache", _no_cache)]
+                ic = [i for i, e in enumerate(seq.elts) if _layer_value(ck, fx, e, lp, "_memory_cache", no_cache)]
                 im = [i for i, e in enumerate(seq.elts) if _layer_value(ck, fx, e, lp, "_metadata_source", None)]
                 if ic and im and min(im) < min(ic):
                     bad = m
@@ -1379,9 +1411,10 @@ def check_forget_scope(ck, cm: CacheModel):
         okm = bool(mdn) and fa.cfg.must_pass(mdn, fa.cfg.exit)
         ck.ob(R, fa.key(None, "metadata-source"), okm, "metadata source %s on every path" % name if okm else
               "%s does not reach self._metadata_source.%s on every normal path" % (name, name), fa.where())
-        ccn, cc = _layer_application_nodes(ck, fa, name, "_memory_cache", _no_cache)
+        no_cache = _through_properties(ck, fa.fi.cls, _no_cache)
+        ccn, cc = _layer_application_nodes(ck, fa, name, "_memory_cache", no_cache)
         # a path may skip the cache only on a branch edge that says there is no cache
-        okc = bool(ccn) and fa.cfg.exit not in fa.cfg.reach([fa.cfg.entry], removed=ccn, edge_ok=branch_filter(fa, _no_cache))
+        okc = bool(ccn) and fa.cfg.exit not in fa.cfg.reach([fa.cfg.entry], removed=ccn, edge_ok=branch_filter(fa, no_cache))
         ck.ob(R, fa.key(None, "cache"), okc, "cache %s whenever a cache exists" % name if okc else
               "%s can finish without self._memory_cache.%s although a cache exists: forgotten entries stay served from memory" % (name, name), fa.where())
         _check_cache_let_go_first(ck, R, fa, name)
@@ -1651,8 +1684,9 @@ def check_cache_coherence(ck, cm):
     # the put is applied to the cache by whatever dispatches it (plain call, bound method, methodcaller, a null-object
     # property, a loop over the layers): a path may finish without it only on a branch edge that says "no cache" or
     # "read-only" (whatever the nesting, the polarity of the test or a temporary holding the flag)
-    def excuse(t, p):
+    def excuse0(t, p):
         return _no_cache(t, p) or (p and t == "self.read_only")
+    excuse = _through_properties(ck, fa.fi.cls, excuse0)
     pn, psites = _layer_application_nodes(ck, fa, "put", "_memory_cache", excuse)
     edge_ok = branch_filter(fa, excuse)
     ok = bool(pn) and fa.cfg.exit not in fa.cfg.reach([fa.cfg.entry], removed=pn, edge_ok=edge_ok)
